@@ -51,7 +51,16 @@ pub enum SpinKind {
 
 #[derive(Clone, Debug)]
 pub enum Op {
-    Run { prog: Program, plan: FaultPlan },
+    Run {
+        prog: Program,
+        plan: FaultPlan,
+        /// exported @test functions (function, argument) and @main call; only in histories
+        /// whose instance runs tests (there the host clears the exports before every Run)
+        tests: Vec<(usize, i64)>,
+        main_call: Option<(usize, i64)>,
+    },
+    /// call_instance_function(OBJ, OBJ.m<k>, [arg])
+    CallInstance { func: usize, arg: i64, plan: FaultPlan },
     Call { func: usize, args: Args, plan: FaultPlan },
     CallNonCallable,
     CallMissing,
@@ -69,6 +78,7 @@ impl Op {
             Op::Call { args: Args::One(_), .. } => "Call",
             Op::Call { args: Args::None, .. } => "CallTooFewArgs",
             Op::Call { args: Args::Two, .. } => "CallTooManyArgs",
+            Op::CallInstance { .. } => "CallInstance",
             Op::CallNonCallable => "CallNonCallable",
             Op::CallMissing => "CallMissing",
             Op::Show { .. } => "Show",
@@ -151,6 +161,7 @@ pub fn gen_history(seed: u64) -> History {
     let mut r = Rng::fork(seed, "scenario");
     let mut fr = Rng::fork(seed, "faults");
     let with_limit = k.chance(1, 6);
+    let run_tests = !with_limit && k.chance(1, 5);
     let nops = r.range(3, 10) as usize;
     let many_failing_calls = k.chance(1, 25);
     let knobs = GenKnobs::swarm(&mut k);
@@ -167,7 +178,7 @@ pub fn gen_history(seed: u64) -> History {
                 p,
                 printed,
                 &plan,
-                ModelOpts { finally_on_abrupt_exit: false },
+                ModelOpts { tick_start: 0, finally_on_abrupt_exit: false },
                 entry,
                 gl.clone(),
             );
@@ -196,20 +207,41 @@ pub fn gen_history(seed: u64) -> History {
                 let mut p = simlang::generate(&mut r, &knobs);
                 // avoid the known finally deviation inside histories: C07 is about residue
                 strip_finally(&mut p);
-                let printed = print_op(&p, i == 0);
-                let plan = pick_plan(&mut fr, &p, &printed, Entry::Main, &gl_model);
-                let pred = Model::run_entry(
-                    &p,
-                    &printed,
-                    &plan,
-                    ModelOpts { finally_on_abrupt_exit: false },
-                    Entry::Main,
-                    gl_model.clone(),
-                );
+                let mut tests = vec![];
+                let mut main_call = None;
+                if run_tests && !p.funcs.is_empty() {
+                    for _ in 0..r.range(0, 2) {
+                        tests.push((r.usize_below(p.funcs.len()), r.irange(0, 5)));
+                    }
+                    if r.chance(1, 3) {
+                        main_call = Some((r.usize_below(p.funcs.len()), r.irange(0, 5)));
+                    }
+                }
+                if run_tests {
+                    // the host clears the exports before every Run of such a history
+                    gl_model.clear();
+                }
+                let printed = print_run(&p, i == 0 || run_tests, &tests, main_call);
+                // fault position: anywhere in the script, its tests or @main
+                let mut plan = FaultPlan::new();
+                if fr.chance(2, 5) {
+                    let base = predict_run(&p, &printed, &plan, gl_model.clone(), &tests, main_call, run_tests);
+                    if base.ticks > 0 {
+                        let pos = 1 + fr.below(base.ticks as u64) as u32;
+                        plan.insert(
+                            pos,
+                            *fr.pick(&[FaultKind::HostErr, FaultKind::HostErr, FaultKind::HostThrow(1), FaultKind::HostThrow(2), FaultKind::BadVal]),
+                        );
+                    }
+                }
+                let pred = predict_run(&p, &printed, &plan, gl_model.clone(), &tests, main_call, run_tests);
                 gl_model = pred.gl.clone();
-                cur_funcs = p.funcs.len();
+                // exported @test / @main persist and would run after EVERY later compile_and_run:
+                // in such histories the host clears the exports before every script and before
+                // the probe battery, so nothing exported earlier can be called afterwards
+                cur_funcs = if run_tests { 0 } else { p.funcs.len() };
                 cur = Some((p.clone(), printed));
-                Op::Run { prog: p, plan }
+                Op::Run { prog: p, plan, tests, main_call }
             }
             7..=10 if cur_funcs > 0 => {
                 let func = r.usize_below(cur_funcs);
@@ -225,7 +257,7 @@ pub fn gen_history(seed: u64) -> History {
                         p,
                         printed,
                         &plan,
-                        ModelOpts { finally_on_abrupt_exit: false },
+                        ModelOpts { tick_start: 0, finally_on_abrupt_exit: false },
                         Entry::Func(func, a),
                         gl_model.clone(),
                     );
@@ -244,16 +276,25 @@ pub fn gen_history(seed: u64) -> History {
                     p,
                     printed,
                     &plan,
-                    ModelOpts { finally_on_abrupt_exit: false },
+                    ModelOpts { tick_start: 0, finally_on_abrupt_exit: false },
                     Entry::Display(func),
                     gl_model.clone(),
                 );
                 gl_model = pred.gl.clone();
                 Op::Show { func, plan }
             }
+            13 if cur_funcs > 0 && r.chance(1, 2) => {
+                let func = r.usize_below(cur_funcs);
+                let arg = r.irange(-5, 9);
+                let (p, printed) = cur.as_ref().unwrap();
+                let plan = pick_plan(&mut fr, p, printed, Entry::Func(func, arg), &gl_model);
+                let pred = Model::run_entry(p, printed, &plan, mopts(0), Entry::Func(func, arg), gl_model.clone());
+                gl_model = pred.gl.clone();
+                Op::CallInstance { func, arg, plan }
+            }
             13 => Op::CallNonCallable,
             14 => Op::CallMissing,
-            15 => Op::ShowGlobals,
+            15 if !run_tests => Op::ShowGlobals,
             16 => Op::RunBad,
             17..=18 => Op::Import(*r.pick(&[
                 ImportKind::Ok,
@@ -271,7 +312,8 @@ pub fn gen_history(seed: u64) -> History {
                 SpinKind::InGenerator,
                 SpinKind::InsideInterpolation,
             ])),
-            _ => Op::ShowGlobals,
+            _ if !run_tests => Op::ShowGlobals,
+            _ => Op::RunBad,
         };
         ops.push(op);
     }
@@ -294,7 +336,7 @@ pub fn gen_history(seed: u64) -> History {
     History {
         ops,
         with_limit,
-        run_tests: false,
+        run_tests,
     }
 }
 
@@ -325,14 +367,77 @@ fn strip_finally(p: &mut Program) {
 }
 
 pub fn print_op(p: &Program, first: bool) -> Printed {
+    print_run(p, first, &[], None)
+}
+
+pub fn print_run(p: &Program, define_globals: bool, tests: &[(usize, i64)], main_call: Option<(usize, i64)>) -> Printed {
     simlang::print(
         p,
         &PrintOpts {
             noise_seed: None,
             main_is_module_body: false,
-            define_globals: first,
+            define_globals,
+            tests: tests.to_vec(),
+            main_call,
         },
     )
+}
+
+fn mopts(tick_start: u32) -> ModelOpts {
+    ModelOpts {
+        tick_start,
+        finally_on_abrupt_exit: false,
+    }
+}
+
+fn merge(p: &mut Prediction, q: Prediction) {
+    p.markers.extend(q.markers);
+    p.caught.extend(q.caught);
+    p.dumps.extend(q.dumps);
+    p.stdout.push_str(&q.stdout);
+    p.ticks = q.ticks;
+    p.fired += q.fired;
+    p.gl = q.gl;
+    p.error_occurred |= q.error_occurred;
+    p.sig.extend(q.sig);
+    if p.model_gap.is_none() {
+        p.model_gap = q.model_gap;
+    }
+}
+
+/// The model's prediction of a whole `Koto::run`: the script, then its exported tests when
+/// enabled (first failure is returned with the test runner's context), then `@main`
+pub fn predict_run(
+    prog: &Program,
+    printed: &Printed,
+    plan: &FaultPlan,
+    gl: Vec<i64>,
+    tests: &[(usize, i64)],
+    main_call: Option<(usize, i64)>,
+    run_tests: bool,
+) -> Prediction {
+    let mut p = Model::run_entry(prog, printed, plan, mopts(0), Entry::Main, gl);
+    if p.result.is_err() {
+        return p;
+    }
+    if run_tests {
+        for (n, (k, a)) in tests.iter().enumerate() {
+            let q = Model::run_entry(prog, printed, plan, mopts(p.ticks), Entry::Func(*k, *a), p.gl.clone());
+            let r = q.result.clone();
+            merge(&mut p, q);
+            if let Err(c) = r {
+                p.result = Err(format!("{c} (while running test 't{n}')"));
+                return p;
+            }
+        }
+    }
+    if let Some((k, a)) = main_call {
+        let q = Model::run_entry(prog, printed, plan, mopts(p.ticks), Entry::Func(k, a), p.gl.clone());
+        let r = q.result.clone();
+        merge(&mut p, q);
+        p.result = r;
+    }
+    p
 }
 
 // ---------------------------------------------------------------------------------------------
@@ -357,6 +462,8 @@ pub struct OpObs {
 }
 
 pub struct Instance {
+    /// histories whose instance runs tests: exports are cleared before every Run
+    pub clear_exports_before_run: bool,
     pub host: Host,
     pub ts: SharedTick,
     pub exports: KMap,
@@ -373,6 +480,7 @@ pub fn new_instance(h: &History, scratch: &Scratch) -> Instance {
     add_sim_natives(&host, &ts);
     let exports = host.koto.exports().clone();
     Instance {
+        clear_exports_before_run: h.run_tests,
         host,
         ts,
         exports,
@@ -444,7 +552,10 @@ pub fn exec_op(
         t.caught.clear();
         t.dumps.clear();
         t.plan = match op {
-            Op::Run { plan, .. } | Op::Call { plan, .. } | Op::Show { plan, .. } => plan.clone(),
+            Op::Run { plan, .. }
+            | Op::Call { plan, .. }
+            | Op::CallInstance { plan, .. }
+            | Op::Show { plan, .. } => plan.clone(),
             _ => FaultPlan::new(),
         };
     }
@@ -453,6 +564,7 @@ pub fn exec_op(
     clock.record_entries.set(false);
     clock.reset(CostProfile::constant(1), 1, STEP_CAP);
     let script_path = inst.script_path.clone();
+    let clear_exports = inst.clear_exports_before_run;
     let koto = &mut inst.host.koto;
     let r = catch_unwind(AssertUnwindSafe(|| -> Result<String, String> {
         let render = |koto: &mut Koto, r: koto::Result<KValue>| match r {
@@ -461,8 +573,26 @@ pub fn exec_op(
         };
         match op {
             Op::Run { .. } => {
+                if clear_exports {
+                    // the documented way to initialise a new script on a long-lived instance
+                    koto.exports_mut().clear();
+                }
                 let r = koto.compile_and_run(source.unwrap());
                 render(koto, r)
+            }
+            Op::CallInstance { func, arg, .. } => {
+                let obj = koto.exports().get("OBJ");
+                let f = match &obj {
+                    Some(KValue::Map(m)) => m.get(format!("m{func}").as_str()),
+                    _ => None,
+                };
+                match (obj, f) {
+                    (Some(o), Some(f)) => {
+                        let r = koto.call_instance_function(o, f, &[KValue::from(*arg)]);
+                        render(koto, r)
+                    }
+                    _ => Err("OBJ.m missing".into()),
+                }
             }
             Op::Call { func, args, .. } => {
                 let name = format!("f{func}");
@@ -496,10 +626,16 @@ pub fn exec_op(
                 None => Err("GL missing".into()),
             },
             Op::RunBad => {
+                if clear_exports {
+                    koto.exports_mut().clear();
+                }
                 let r = koto.compile_and_run("x = (1 +\n");
                 render(koto, r)
             }
             Op::Import(k) => {
+                if clear_exports {
+                    koto.exports_mut().clear();
+                }
                 let args = koto::CompileArgs::new(import_script(*k)).script_path(script_path.as_str());
                 let r = koto.compile_and_run(args);
                 render(koto, r)
@@ -534,6 +670,9 @@ pub fn exec_op(
     o.state = state_tuple(&inst.host.koto);
     o.exports_replaced = !inst.host.koto.exports().is_same_instance(&inst.exports);
     if with_probes && o.panic.is_none() && !o.step_cap {
+        if inst.clear_exports_before_run {
+            inst.host.koto.exports_mut().clear();
+        }
         clock.reset(CostProfile::constant(1), 1, STEP_CAP);
         o.probes = run_probes(&mut inst.host.koto);
     }
@@ -623,17 +762,13 @@ pub fn evaluate(h: &History, ws: &HistWorkerState) -> HistEval {
         let mut expect_value: Option<String> = None;
         let mut source: Option<String> = None;
         match op {
-            Op::Run { prog, plan } => {
-                let printed = print_op(prog, first_run);
+            Op::Run { prog, plan, tests, main_call } => {
+                let printed = print_run(prog, first_run || h.run_tests, tests, *main_call);
                 first_run = false;
-                let p = Model::run_entry(
-                    prog,
-                    &printed,
-                    plan,
-                    ModelOpts { finally_on_abrupt_exit: false },
-                    Entry::Main,
-                    gl.clone(),
-                );
+                if h.run_tests {
+                    gl.clear();
+                }
+                let p = predict_run(prog, &printed, plan, gl.clone(), tests, *main_call, h.run_tests);
                 gl = p.gl.clone();
                 source = Some(printed.source.clone());
                 cur = Some((prog.clone(), printed));
@@ -654,7 +789,7 @@ pub fn evaluate(h: &History, ws: &HistWorkerState) -> HistEval {
                                 p,
                                 printed,
                                 plan,
-                                ModelOpts { finally_on_abrupt_exit: false },
+                                ModelOpts { tick_start: 0, finally_on_abrupt_exit: false },
                                 Entry::Func(*func, *a),
                                 gl.clone(),
                             );
@@ -663,6 +798,19 @@ pub fn evaluate(h: &History, ws: &HistWorkerState) -> HistEval {
                         }
                         _ => expect_err_only = Some(true),
                     }
+                }
+            }
+            Op::CallInstance { func, arg, plan } => {
+                let Some((p, printed)) = cur.as_ref() else {
+                    ev.harness_error = Some("CallInstance before any Run".into());
+                    return ev;
+                };
+                if *func >= p.funcs.len() {
+                    expect_err_only = Some(true);
+                } else {
+                    let pr = Model::run_entry(p, printed, plan, mopts(0), Entry::Func(*func, *arg), gl.clone());
+                    gl = pr.gl.clone();
+                    pred = Some(pr);
                 }
             }
             Op::Show { func, plan } => {
@@ -677,7 +825,7 @@ pub fn evaluate(h: &History, ws: &HistWorkerState) -> HistEval {
                         p,
                         printed,
                         plan,
-                        ModelOpts { finally_on_abrupt_exit: false },
+                        ModelOpts { tick_start: 0, finally_on_abrupt_exit: false },
                         Entry::Display(*func),
                         gl.clone(),
                     );
@@ -862,6 +1010,7 @@ pub fn evaluate(h: &History, ws: &HistWorkerState) -> HistEval {
         ("fault.injected_in_operation.fired", ev.faults_fired),
         ("probe_batteries_run", n_probe_batteries),
         ("histories.with_execution_limit", h.with_limit as u64),
+        ("histories.with_exported_tests_and_main", h.run_tests as u64),
         ("residue_observations", residue_seen),
     ];
     for (k, f) in &kinds {
@@ -871,6 +1020,7 @@ pub fn evaluate(h: &History, ws: &HistWorkerState) -> HistEval {
                     "Run" => "failed.Run",
                     "Call" => "failed.Call",
                     "CallTooFewArgs" => "failed.CallTooFewArgs",
+                    "CallInstance" => "failed.CallInstance",
                     "CallTooManyArgs" => "failed.CallTooManyArgs",
                     "CallNonCallable" => "failed.CallNonCallable",
                     "CallMissing" => "failed.CallMissing",
@@ -917,19 +1067,35 @@ pub fn shrink(h: &History, class: &str, ws: &HistWorkerState) -> (History, usize
         }
         for i in 0..best.ops.len() {
             match &best.ops[i] {
-                Op::Run { prog, plan } => {
+                Op::Run { prog, plan, tests, main_call } => {
                     if !plan.is_empty() {
                         let mut c = best.clone();
-                        c.ops[i] = Op::Run { prog: prog.clone(), plan: FaultPlan::new() };
+                        c.ops[i] = Op::Run { prog: prog.clone(), plan: FaultPlan::new(), tests: tests.clone(), main_call: *main_call };
+                        cands.push(c);
+                    }
+                    if !tests.is_empty() || main_call.is_some() {
+                        let mut c = best.clone();
+                        c.ops[i] = Op::Run { prog: prog.clone(), plan: plan.clone(), tests: vec![], main_call: None };
                         cands.push(c);
                     }
                     let mut vars = program_variants(prog);
                     vars.truncate(400);
                     for pv in vars {
+                        // tests / @main must keep referring to existing functions
+                        if tests.iter().any(|(k, _)| *k >= pv.funcs.len())
+                            || main_call.is_some_and(|(k, _)| k >= pv.funcs.len())
+                        {
+                            continue;
+                        }
                         let mut c = best.clone();
-                        c.ops[i] = Op::Run { prog: pv, plan: plan.clone() };
+                        c.ops[i] = Op::Run { prog: pv, plan: plan.clone(), tests: tests.clone(), main_call: *main_call };
                         cands.push(c);
                     }
+                }
+                Op::CallInstance { func, arg, plan } if !plan.is_empty() => {
+                    let mut c = best.clone();
+                    c.ops[i] = Op::CallInstance { func: *func, arg: *arg, plan: FaultPlan::new() };
+                    cands.push(c);
                 }
                 Op::Call { func, args, plan } if !plan.is_empty() => {
                     let mut c = best.clone();
@@ -972,11 +1138,14 @@ pub fn history_to_json(h: &History) -> Value {
         .ops
         .iter()
         .map(|op| match op {
-            Op::Run { prog, plan } => {
-                let printed = print_op(prog, first);
+            Op::Run { prog, plan, tests, main_call } => {
+                let printed = print_run(prog, first || h.run_tests, tests, *main_call);
                 first = false;
-                json!({"op": "Run", "source": printed.source, "fault_plan": plan_to_json(plan)})
+                json!({"op": "Run", "source": printed.source, "fault_plan": plan_to_json(plan), "clear_exports_first": h.run_tests})
             }
+            Op::CallInstance { func, arg, plan } => json!({
+                "op": "CallInstance", "instance": "OBJ", "function": format!("m{func}"), "args": [arg], "fault_plan": plan_to_json(plan)
+            }),
             Op::Call { func, args, plan } => json!({
                 "op": "Call", "function": format!("f{func}"),
                 "args": match args { Args::One(a) => json!([a]), Args::None => json!([]), Args::Two => json!([1, 2]) },
@@ -1019,7 +1188,11 @@ pub fn replay(doc: &Value) -> (Option<(String, String)>, u64) {
         let src = o["source"].as_str().unwrap_or("").to_string();
         // rebuild an executable op
         let (op, source): (Op, Option<String>) = match o["op"].as_str().unwrap_or("") {
-            "Run" => (Op::Run { prog: Program::default(), plan }, Some(src)),
+            "Run" => (Op::Run { prog: Program::default(), plan, tests: vec![], main_call: None }, Some(src)),
+            "CallInstance" => {
+                let func: usize = o["function"].as_str().unwrap_or("m0").trim_start_matches('m').parse().unwrap_or(0);
+                (Op::CallInstance { func, arg: o["args"][0].as_i64().unwrap_or(0), plan }, None)
+            }
             "RunWithPath" => {
                 let k = match o["import_kind"].as_str().unwrap_or("") {
                     "Ok" => ImportKind::Ok,
@@ -1151,12 +1324,15 @@ fn expectations(h: &History) -> Vec<Value> {
     let mut cur: Option<(Program, Printed)> = None;
     let mut first = true;
     for op in &h.ops {
-        let opts = || ModelOpts { finally_on_abrupt_exit: false };
+        let opts = || ModelOpts { tick_start: 0, finally_on_abrupt_exit: false };
         match op {
-            Op::Run { prog, plan } => {
-                let printed = print_op(prog, first);
+            Op::Run { prog, plan, tests, main_call } => {
+                let printed = print_run(prog, first || h.run_tests, tests, *main_call);
                 first = false;
-                let p = Model::run_entry(prog, &printed, plan, opts(), Entry::Main, gl.clone());
+                if h.run_tests {
+                    gl.clear();
+                }
+                let p = predict_run(prog, &printed, plan, gl.clone(), tests, *main_call, h.run_tests);
                 gl = p.gl.clone();
                 cur = Some((prog.clone(), printed));
                 out.push(unwindsim::prediction_to_json(&p));
@@ -1164,6 +1340,12 @@ fn expectations(h: &History) -> Vec<Value> {
             Op::Call { func, args: Args::One(a), plan } if cur.as_ref().is_some_and(|c| *func < c.0.funcs.len()) => {
                 let (p, printed) = cur.as_ref().unwrap();
                 let pr = Model::run_entry(p, printed, plan, opts(), Entry::Func(*func, *a), gl.clone());
+                gl = pr.gl.clone();
+                out.push(unwindsim::prediction_to_json(&pr));
+            }
+            Op::CallInstance { func, arg, plan } if cur.as_ref().is_some_and(|c| *func < c.0.funcs.len()) => {
+                let (p, printed) = cur.as_ref().unwrap();
+                let pr = Model::run_entry(p, printed, plan, opts(), Entry::Func(*func, *arg), gl.clone());
                 gl = pr.gl.clone();
                 out.push(unwindsim::prediction_to_json(&pr));
             }
